@@ -45,7 +45,10 @@ RULE = ("message sequences over 2 clients x 3 players (default + 2; plus unset/e
         "the handlers read: unset vs default-valued vs other values, in one- and two-message combinations on the "
         "reported player); (c) sampled longer sequences from ctx.rng with independent presence per field and "
         "noise in fields the model ignores; (d) the position cases and sampled histories under four process "
-        "timezones x five offsets between elapsedTimeTimestamp and the frozen instant; plus the full grid of "
+        "timezones x five offsets between elapsedTimeTimestamp and the frozen instant; (e) populations of up to "
+        "14 clients / 14 players alive at once (deterministic ladders + sampled); (f) bursts: groups of 2-4 messages "
+        "dispatched back to back while the listener stays suspended in state_updated() (all pairs of the reduced "
+        "alphabet after each warm-up history, sampled histories cut into random groups); plus the full grid of "
         "Playing(position, total_time). non-trivial = "
         "the sequence changes the reported view at least twice or removes a client/player that was being "
         "reported; distinct = the sequence itself")
@@ -525,12 +528,15 @@ class _Listener:
     def __init__(self, impl):
         self.impl = impl
         self.seen = []
+        self.suspend = 0          # loop iterations state_updated() stays suspended after reading the state
 
     async def state_updated(self):
         n = len(self.impl.sampled.samples)
         await self.impl.pu.state_updated()
         got = self.impl.sampled.samples[n:]
         self.seen.append(got[-1] if got else "err:listener-did-not-read-state")
+        for _ in range(self.suspend):      # a slow consumer: further messages are handled meanwhile
+            await asyncio.sleep(0)
 
 
 class _SampledMetadata:
@@ -627,6 +633,24 @@ class Impl:
         pending, self.pending = self.pending, []
         for t in pending:
             await t
+        return await self.observe(self.listener.seen)
+
+    async def feed_burst(self, msgs, suspend):
+        """Deliver several messages back to back (as one TCP segment carrying several frames does),
+        with a listener that stays suspended in state_updated() for `suspend` loop iterations; the
+        loop is drained before anything is observed."""
+        self.listener.seen = []
+        self.listener.suspend = suspend
+        try:
+            for msg in msgs:
+                self.prot.message_received(self.real.build(msg), None)
+            pending, self.pending = self.pending, []
+            for t in pending:
+                await t
+            for _ in range(suspend + 2):
+                await asyncio.sleep(0)
+        finally:
+            self.listener.suspend = 0
         return await self.observe(self.listener.seen)
 
     async def view(self):
@@ -1306,6 +1330,154 @@ def check_batch(ctx, real, seqs, label, clocks=None):
             ctx.case([label, case["seq"], case.get("clock")], changes >= 2 or removed, sample={"kinds": kinds, "seq": case["seq"]} if removed and changes >= 2 else None)
 
 
+# -- concurrent delivery: several messages dispatched while the listener is still suspended ------
+async def _run_bursts(real, cases):
+    out = []
+    for seq, groups, suspend in cases:
+        try:
+            impl = Impl(real)
+            obs = [await impl.start()]
+            i = 0
+            for g in groups:
+                try:
+                    obs.append(await impl.feed_burst(seq[i:i + g], suspend if g > 1 else 0))
+                except Exception as exc:
+                    obs.append(([], _errname(exc), None))
+                i += g
+        except Exception as exc:
+            obs = [([], _errname(exc), None)] * (len(groups) + 1)
+        out.append(obs)
+    return out
+
+
+def check_bursts(ctx, real, cases, label):
+    """cases: (sequence, group sizes, suspend).  Each group is dispatched back to back; the handlers
+    contain no await before the wake-up, so the model's sequential semantics still applies: the
+    states a suspending listener reads are, in order, the model's wake-up states of the group."""
+    cases = [(tuple(q), tuple(g), k) for q, g, k in cases]
+    if not cases:
+        return
+    labels = [label] * len(cases) if isinstance(label, str) else list(label)
+    loop = asyncio.new_event_loop()
+    real.freeze()
+    try:
+        impl = loop.run_until_complete(_run_bursts(real, cases))
+    finally:
+        real.thaw()
+        loop.close()
+    answers = ctx.lean([f"run 1 {real.now} " + " ".join(wire(m) for m in seq) for seq, _g, _k in cases])
+    for (seq, groups, suspend), obs, ans, label in zip(cases, impl, answers, labels):
+        case = dict(_case(seq, real=real), groups=list(groups), suspend=suspend)
+        ctx.note("set:" + label)
+        ctx.note("burst-max:%d" % max(groups))
+        model = ans.split(",")
+        if ans == "bad-op" or len(model) != len(seq):
+            ctx.disagree(case, "n/a", ans, where="driver answer shape")
+            continue
+        ref = Ref(real)
+        seen = obs[0][1]
+        i, changes = 0, 0
+        for gi, (g, (wakes, view, stale)) in enumerate(zip(groups, obs[1:])):
+            mwakes, mview = [], None
+            for mtxt in model[i:i + g]:
+                _n, mseen, mrep = mtxt.split("|")
+                if mseen != "-":
+                    mwakes.append(parse_report(mseen))
+                mview = parse_report(mrep)
+            for m in seq[i:i + g]:
+                ref.step(m)
+            i += g
+            k = seq[i - 1].kind
+            c = dict(case, step=i - 1)
+            if isinstance(view, str) or any(isinstance(w, str) for w in wakes):
+                ctx.fail(f"exception:{k}:burst", c, _jsonable([wakes, view]), "no exception", "the real code raised while messages were handled concurrently")
+                break
+            if mview != view or mwakes != wakes:
+                ctx.disagree(c, [_jsonable(wakes), _jsonable(view)], ",".join(model[i - g:i]),
+                             where="model vs real code, messages dispatched back to back with a suspending listener")
+            want = ref.report()
+            if _no_name(view) != _no_name(want):
+                ctx.fail(f"report-mismatch:{k}", c, list(view), list(want),
+                         "reported state is not derived from the most recent state of the active player of the active client")
+            if wakes:
+                seen = wakes[-1]
+            if seen != view:
+                changes += 1
+                ctx.fail(f"no-wake:{k}:suspended-listener" if g > 1 else f"no-wake:{k}", c,
+                         {"listener_last_saw": list(seen), "reported_now": list(view), "wakeups_in_group": len(wakes)},
+                         "after the loop has drained, the last state the listener observed is the reported state",
+                         "a wake-up was lost while the listener was still busy with the previous one")
+                seen = view
+            if stale is not None:
+                ctx.fail(f"push-stale:{k}", c, {"push_updater_last_delivered": stale, "reported_now": list(view)},
+                         "the Playing last delivered by MrpPushUpdater equals metadata.playing()",
+                         "the real MrpPushUpdater's consumer is left with an outdated now-playing state")
+        ctx.validated()
+        ctx.case([label, case["seq"], case["groups"], suspend], max(groups) > 1 and len(obs) > 2, sample=None)
+
+
+def burst_cases(ctx, real, rng):
+    """(label, (sequence, groups, suspend)): after each warm-up history every pair of messages of the
+    reduced alphabet dispatched as one burst; sampled histories cut into random groups of 1..4."""
+    reduced = alphabet(real, (1, 2), (1, 2), rich=False, reduced=True)
+    for pi, pre in enumerate(prefixes(real)):
+        for t in itertools.product(reduced, repeat=2):
+            yield "burst-after-prefix%d" % pi, (pre + t, (1,) * len(pre) + (2,), 1)
+    for t in itertools.product(reduced, repeat=ctx.scale(2, 3)):
+        if canonical(t):
+            yield "burst-from-empty", (t, (len(t),), 2)
+    rich = alphabet(real, (1, 2), (1, 2, 3), rich=True)
+    for seq in sample_sequences(real, rng, rich, ctx.scale(400, 8000), 4, 12):
+        groups, left = [], len(seq)
+        while left:
+            g = min(left, rng.choice([1, 1, 2, 2, 3, 4]))
+            groups.append(g)
+            left -= g
+        yield "burst-sampled", (seq, tuple(groups), rng.choice([1, 2, 5]))
+
+
+def crowd_cases(real, rng, count):
+    """Larger identifier populations than the 2 x 3 of the alphabets: up to 14 clients / 14 players
+    alive at once, the reported one being the oldest, the newest or in the middle."""
+    PS = real.pb.PlaybackState
+    it = lambda k: _item_spec(k % 3 + 1, k % 4 + 1, 1, 100, 10, NOW - 10)
+    for n in range(3, 15):
+        # many clients; client 1 is active and keeps being updated / is finally removed
+        for first_active in (True, False):
+            seq = [mk("C", 1)] if first_active else []
+            seq.append(mk("S", 1, None, 1, ps=PS.Playing, queue=(0, [it(1)])))
+            for j in range(2, n + 1):
+                seq.append(mk("S", j, None, 1, ps=PS.Stopped))
+            if not first_active:
+                seq.append(mk("C", 1))
+            seq += [mk("S", 1, None, 1, ps=PS.Paused, queue=(0, [it(2)])), mk("U", 1, None, 1, items=[_item_spec(3, 4)]),
+                    mk("X", 1), mk("S", 1, None, 1, ps=PS.Playing)]
+            yield "crowd-clients", tuple(seq)
+        # many players inside the active client; the chosen one is the first
+        seq = [mk("C", 1), mk("P", 1, None, 2), mk("S", 1, None, 2, ps=PS.Playing, queue=(0, [it(1)]))]
+        for j in range(3, n + 2):
+            seq.append(mk("S", 1, None, j, ps=PS.Stopped))
+        seq += [mk("S", 1, None, 2, ps=PS.Paused, queue=(0, [it(2)])), mk("R", 1, None, n + 1), mk("R", 1, None, 2),
+                mk("S", 1, None, 1, ps=PS.Seeking)]
+        yield "crowd-players", tuple(seq)
+    dom = field_domains(real)
+    for _ in range(count):
+        n = rng.randint(6, 14)
+        ids = list(range(1, n + 1))
+        focus = rng.choice(ids)
+        fplayer = rng.choice([1, 1, 2, rng.randint(3, n + 2)])
+        seq = []
+        for i in range(rng.randint(n, 3 * n)):
+            r = rng.random()
+            if r < 0.45:
+                seq.append(rand_msg(real, rng, dom, rng.choice(ids), rng.choice([0, 1, 2, rng.randint(3, n + 2)])))
+            elif r < 0.55:
+                seq.append(mk("C", focus))
+            else:
+                seq.append(rand_msg(real, rng, dom, focus, fplayer, kind=rng.choice("SSSUPRNXD")))
+        yield "crowd-sampled", tuple(seq)
+
+
 def clamp_grid(ctx, real):
     """Playing._post_process on the full small grid, vs the Lean `post` op and the bounds."""
     Playing = real.interface.Playing
@@ -1422,13 +1594,20 @@ def run(ctx, only=None):
     check_batch(ctx, real, [q for _l, q in batch], [l for l, _q in batch])
     ctx.exhaustive = True
 
+    # many clients / players alive at once
+    crowd = list(crowd_cases(real, ctx.rng.fork("crowd"), ctx.scale(300, 3000)))
+    check_batch(ctx, real, [q for _l, q in crowd], [l for l, _q in crowd])
+    # several messages handled while the listener is still suspended in state_updated()
+    bursts = list(burst_cases(ctx, real, ctx.rng.fork("burst")))
+    check_bursts(ctx, real, [c for _l, c in bursts], [l for l, _c in bursts])
+
     # the derived position must not depend on the host's timezone, only on the instant "now"
     fam = list(clock_family(ctx, real, ctx.rng.fork("clock")))
     check_batch(ctx, real, [q for _l, q, _c in fam], [l for l, _q, _c in fam], [c for _l, _q, c in fam])
 
     rich = alphabet(real, (0, 1, 2), (0, 1, 2, 3), rich=True, names=(None, 5))
     rng = ctx.rng.fork("sampled")
-    n = ctx.scale(3000, 30000)
+    n = ctx.scale(3000, 20000)
     check_batch(ctx, real, sample_sequences(real, rng, rich, n, 3, ctx.scale(10, 14)), "sampled")
 
 
@@ -1442,7 +1621,10 @@ def replay(ctx, failure):
     if "seq" in case:
         real = Real()                # sets M.default_id / defaults before messages are rebuilt
         with real.clock(case.get("clock")):
-            check_batch(c2, real, [_seq_of(case)], "replay")
+            if "groups" in case:
+                check_bursts(c2, real, [(_seq_of(case), case["groups"], case.get("suspend", 1))], "replay")
+            else:
+                check_batch(c2, real, [_seq_of(case)], "replay")
     else:
         clamp_grid(c2, Real())
     return bool(c2.failures)
@@ -1459,7 +1641,7 @@ def _fails_with(ctx, real, seq, sig, clock=None):
 def shrink(ctx, failure):
     """Drop messages one at a time while the real code still fails with the same signature."""
     case = failure["case"]
-    if "seq" not in case:
+    if "seq" not in case or "groups" in case:
         return failure
     real = Real()
     seq = list(_seq_of(case))
